@@ -1,1 +1,1442 @@
-fn main(){}
+//! C04 — the duplicate-key policy is applied exactly, for keys of every YAML kind.
+//!
+//! Every verdict is derived from the raw parser's tree of the generated document
+//! (aliases expanded by anchor id), never from what the generator intended:
+//!   * a key *repeats* when an earlier own entry of the same mapping has the same
+//!     key node (same structure, scalar text and tag; style does not matter);
+//!   * `Error`      -> `Err(DuplicateMappingKey)` whose line/column is the raw parser's start
+//!                     mark of the first repeated key in streaming order (its *second* occurrence;
+//!                     for a key written as an alias that is the alias token);
+//!   * `FirstWins`  -> every target equals the document with every later entry deleted;
+//!   * `LastWins`   -> overwriting maps equal the document with every earlier entry deleted;
+//!                     the ordered pair list (`Val`) receives every entry, in order, which is
+//!                     checked against the same entries written as a sequence of one-pair mappings;
+//!   * no repeats   -> identical results under the three policies.
+//! The value after a repeated key is varied (scalar, empty containers, nests, 10k-element
+//! sequences, alias to a large anchor, mapping with its own duplicates and merges) and every
+//! sibling carries a unique token, so a cursor that skips too little or too much shows up as
+//! a wrong value.
+
+use saphyr_parser::ScalarStyle;
+use serde_json::json;
+use std::collections::{BTreeSet, HashMap, HashSet};
+use vcore::reftree::{self, Pos, RNode, render_checked};
+use vcore::rng::{Rng, fnv_parts};
+use vcore::run::{Finish, Run, Tier, par_range, par_range_chunk};
+use vcore::targets::{self, Outcome, same_value_or_both_err, show};
+use vcore::val::Val;
+use vcore::ydoc::{Node, RenderOpts};
+
+const POLICY_NAMES: [&str; 3] = ["Error", "FirstWins", "LastWins"];
+const TARGETS: [&str; 5] = ["Val", "MapValVal", "MapStrVal", "Rec", "json"];
+
+fn opts(policy: usize) -> serde_saphyr::Options {
+    let mut o = vcore::errs::unlimited_options();
+    #[allow(deprecated)]
+    {
+        o.duplicate_keys = match policy {
+            1 => serde_saphyr::DuplicateKeyPolicy::FirstWins,
+            2 => serde_saphyr::DuplicateKeyPolicy::LastWins,
+            _ => serde_saphyr::DuplicateKeyPolicy::Error,
+        };
+    }
+    o
+}
+
+fn run_target(name: &str, doc: &str, policy: usize) -> Result<Outcome, String> {
+    let t = targets::by_name(name).unwrap();
+    vcore::obs::catch(|| (t.from_str)(doc, opts(policy)))
+}
+
+fn run_val(doc: &str, policy: usize) -> Result<Result<Val, serde_saphyr::Error>, String> {
+    vcore::obs::catch(|| serde_saphyr::from_str_with_options::<Val>(doc, opts(policy)))
+}
+
+/// Thread-local accumulation of counters / observations (one lock per document instead of one per count).
+mod acc {
+    use std::cell::RefCell;
+    use std::collections::{BTreeMap, HashSet};
+    thread_local! {
+        static C: RefCell<BTreeMap<&'static str, u64>> = const { RefCell::new(BTreeMap::new()) };
+        static O: RefCell<HashSet<(&'static str, String)>> = RefCell::new(HashSet::new());
+    }
+    pub fn count(k: &'static str, n: u64) {
+        C.with(|c| *c.borrow_mut().entry(k).or_insert(0) += n);
+    }
+    pub fn observe(run: &vcore::run::Run, set: &'static str, label: &str) {
+        let new = O.with(|o| o.borrow_mut().insert((set, label.to_string())));
+        if new {
+            run.observe(set, label);
+        }
+    }
+    pub fn flush(run: &vcore::run::Run) {
+        let m = C.with(|c| std::mem::take(&mut *c.borrow_mut()));
+        if !m.is_empty() {
+            run.count_map(&m);
+        }
+    }
+}
+
+/// Overwriting target at *every* level: like `Val`, but each mapping is an overwriting map
+/// (a later pair with an equal key replaces the earlier value).
+#[derive(Debug, PartialEq)]
+struct OVal(Val);
+
+impl<'de> serde::Deserialize<'de> for OVal {
+    fn deserialize<D: serde::Deserializer<'de>>(d: D) -> Result<OVal, D::Error> {
+        struct V;
+        impl<'de> serde::de::Visitor<'de> for V {
+            type Value = OVal;
+            fn expecting(&self, f: &mut std::fmt::Formatter) -> std::fmt::Result {
+                f.write_str("any YAML value")
+            }
+            fn visit_unit<E>(self) -> Result<OVal, E> {
+                Ok(OVal(Val::Null))
+            }
+            fn visit_none<E>(self) -> Result<OVal, E> {
+                Ok(OVal(Val::Null))
+            }
+            fn visit_some<D: serde::Deserializer<'de>>(self, d: D) -> Result<OVal, D::Error> {
+                <OVal as serde::Deserialize>::deserialize(d)
+            }
+            fn visit_bool<E>(self, v: bool) -> Result<OVal, E> {
+                Ok(OVal(Val::Bool(v)))
+            }
+            fn visit_i64<E>(self, v: i64) -> Result<OVal, E> {
+                Ok(OVal(Val::Int(v as i128)))
+            }
+            fn visit_u64<E>(self, v: u64) -> Result<OVal, E> {
+                Ok(OVal(Val::Int(v as i128)))
+            }
+            fn visit_i128<E>(self, v: i128) -> Result<OVal, E> {
+                Ok(OVal(Val::Int(v)))
+            }
+            fn visit_f64<E>(self, v: f64) -> Result<OVal, E> {
+                Ok(OVal(Val::f(v)))
+            }
+            fn visit_str<E>(self, v: &str) -> Result<OVal, E> {
+                Ok(OVal(Val::Str(v.to_string())))
+            }
+            fn visit_string<E>(self, v: String) -> Result<OVal, E> {
+                Ok(OVal(Val::Str(v)))
+            }
+            fn visit_bytes<E>(self, v: &[u8]) -> Result<OVal, E> {
+                Ok(OVal(Val::Bytes(v.to_vec())))
+            }
+            fn visit_seq<A: serde::de::SeqAccess<'de>>(self, mut a: A) -> Result<OVal, A::Error> {
+                let mut v = Vec::new();
+                while let Some(x) = a.next_element::<OVal>()? {
+                    v.push(x.0);
+                }
+                Ok(OVal(Val::Seq(v)))
+            }
+            fn visit_map<A: serde::de::MapAccess<'de>>(self, mut a: A) -> Result<OVal, A::Error> {
+                let mut m: std::collections::BTreeMap<Val, Val> = std::collections::BTreeMap::new();
+                while let Some(k) = a.next_key::<OVal>()? {
+                    let x = a.next_value::<OVal>()?;
+                    m.insert(k.0, x.0);
+                }
+                Ok(OVal(Val::Map(m.into_iter().collect())))
+            }
+        }
+        d.deserialize_any(V)
+    }
+}
+
+fn run_oval(doc: &str, policy: usize) -> Result<Outcome, String> {
+    vcore::obs::catch(|| serde_saphyr::from_str_with_options::<OVal>(doc, opts(policy)).map(|v| format!("{:?}", v.0)))
+}
+
+// ------------------------------------------------------------------ reference model on the raw tree
+
+fn is_merge_key(k: &RNode) -> bool {
+    matches!(k, RNode::Scalar { value, style: ScalarStyle::Plain, tag: None, .. } if value == "<<")
+}
+
+/// Same key node: same structure, scalar text and scalar tag. Style, anchors and positions
+/// do not matter. (Tags on container keys are flagged as unspecified elsewhere.)
+fn key_eq(a: &RNode, b: &RNode) -> bool {
+    match (a, b) {
+        (RNode::Scalar { value: v1, tag: t1, .. }, RNode::Scalar { value: v2, tag: t2, .. }) => v1 == v2 && t1 == t2,
+        (RNode::Seq { items: i1, .. }, RNode::Seq { items: i2, .. }) => {
+            i1.len() == i2.len() && i1.iter().zip(i2).all(|(x, y)| key_eq(x, y))
+        }
+        (RNode::Map { entries: e1, .. }, RNode::Map { entries: e2, .. }) => {
+            e1.len() == e2.len() && e1.iter().zip(e2).all(|((k1, v1), (k2, v2))| key_eq(k1, k2) && key_eq(v1, v2))
+        }
+        _ => false,
+    }
+}
+
+fn with_pos(mut n: RNode, p: Pos) -> RNode {
+    match &mut n {
+        RNode::Scalar { pos, .. } | RNode::Seq { pos, .. } | RNode::Map { pos, .. } | RNode::Alias { pos, .. } => *pos = p,
+    }
+    n
+}
+
+/// Alias expansion by anchor id in which the copy that replaces an alias carries the
+/// position of the *alias token* at its top node (use site).
+fn expand_use(n: &RNode) -> Option<RNode> {
+    fn go(n: &RNode, env: &mut HashMap<usize, Option<RNode>>) -> Option<RNode> {
+        match n {
+            RNode::Alias { id, pos } => env.get(id)?.clone().map(|c| with_pos(c, *pos)),
+            RNode::Scalar { value, style, tag, anchor, pos } => {
+                let out = RNode::Scalar { value: value.clone(), style: *style, tag: tag.clone(), anchor: 0, pos: *pos };
+                if *anchor != 0 {
+                    env.insert(*anchor, Some(out.clone()));
+                }
+                Some(out)
+            }
+            RNode::Seq { items, tag, anchor, pos } => {
+                if *anchor != 0 {
+                    env.insert(*anchor, None);
+                }
+                let mut v = Vec::with_capacity(items.len());
+                for i in items {
+                    v.push(go(i, env)?);
+                }
+                let out = RNode::Seq { items: v, tag: tag.clone(), anchor: 0, pos: *pos };
+                if *anchor != 0 {
+                    env.insert(*anchor, Some(out.clone()));
+                }
+                Some(out)
+            }
+            RNode::Map { entries, tag, anchor, pos } => {
+                if *anchor != 0 {
+                    env.insert(*anchor, None);
+                }
+                let mut v = Vec::with_capacity(entries.len());
+                for (k, x) in entries {
+                    let k2 = go(k, env)?;
+                    let x2 = go(x, env)?;
+                    v.push((k2, x2));
+                }
+                let out = RNode::Map { entries: v, tag: tag.clone(), anchor: 0, pos: *pos };
+                if *anchor != 0 {
+                    env.insert(*anchor, Some(out.clone()));
+                }
+                Some(out)
+            }
+        }
+    }
+    go(n, &mut HashMap::new())
+}
+
+fn kind_name(n: &RNode) -> &'static str {
+    match n {
+        RNode::Scalar { .. } => "scalar",
+        RNode::Seq { .. } => "sequence",
+        RNode::Map { .. } => "mapping",
+        RNode::Alias { .. } => "alias",
+    }
+}
+
+fn value_class(raw: Option<&RNode>, exp: &RNode) -> &'static str {
+    if matches!(raw, Some(RNode::Alias { .. })) {
+        return "alias";
+    }
+    match exp {
+        RNode::Scalar { .. } => "scalar",
+        RNode::Seq { items, .. } if items.is_empty() => "empty-seq",
+        RNode::Map { entries, .. } if entries.is_empty() => "empty-map",
+        RNode::Seq { .. } => "seq",
+        RNode::Map { .. } => "map",
+        RNode::Alias { .. } => "alias",
+    }
+}
+
+#[derive(Debug, Clone)]
+struct FirstRepeat {
+    /// where the error must point: start mark of the repeated key at its second occurrence
+    expect: Pos,
+    /// the repeated key is written as an alias; `def` is the anchored node it stands for
+    via_alias: bool,
+    def: Pos,
+    first_occurrence: Pos,
+    in_replay: bool,
+    depth: usize,
+    key_kind: &'static str,
+    discarded_value: &'static str,
+}
+
+#[derive(Default, Debug)]
+struct Analysis {
+    repeats: usize,
+    entry_after_repeat: bool,
+    first: Option<FirstRepeat>,
+    unspecified: BTreeSet<&'static str>,
+    has_merge: bool,
+    complex_key: bool,
+    root_is_map: bool,
+    root_keys_plain_scalars: bool,
+    custom_tag_lookalike: bool,
+    key_kinds: BTreeSet<&'static str>,
+    discarded_values: BTreeSet<&'static str>,
+}
+
+struct Ctx {
+    in_replay: bool,
+    in_source: bool,
+    in_key: bool,
+    depth: usize,
+}
+
+fn is_custom_tag(t: &Option<String>) -> bool {
+    matches!(t, Some(s) if s.starts_with('!') && !s.starts_with("!!") && s.len() > 1)
+}
+
+/// Walk raw / use-site expansion / definition-site expansion in parallel, in streaming order.
+fn analyse(raw: Option<&RNode>, usex: &RNode, defx: &RNode, c: &Ctx, an: &mut Analysis) {
+    let replay_below = c.in_replay || matches!(raw, Some(RNode::Alias { .. }));
+    match (usex, defx) {
+        (RNode::Map { entries, tag, .. }, RNode::Map { entries: dentries, .. }) => {
+            if c.in_key && tag.is_some() {
+                an.unspecified.insert("tagged-container-key");
+            }
+            let rentries = match raw {
+                Some(RNode::Map { entries: re, .. }) if re.len() == entries.len() => Some(re),
+                _ => None,
+            };
+            for (i, (k, v)) in entries.iter().enumerate() {
+                let rk = rentries.map(|re| &re[i].0);
+                let rv = rentries.map(|re| &re[i].1);
+                let (dk, dv) = (&dentries[i].0, &dentries[i].1);
+                if is_merge_key(k) {
+                    an.has_merge = true;
+                    let c2 = Ctx { in_replay: replay_below, in_source: true, in_key: c.in_key, depth: c.depth + 1 };
+                    analyse(rv, v, dv, &c2, an);
+                    continue;
+                }
+                if !matches!(k, RNode::Scalar { .. }) {
+                    an.complex_key = true;
+                }
+                let earlier = entries[..i].iter().find(|(k2, _)| !is_merge_key(k2) && key_eq(k2, k));
+                if let Some((k0, _)) = earlier {
+                    an.repeats += 1;
+                    if i + 1 < entries.len() {
+                        an.entry_after_repeat = true;
+                    }
+                    if c.in_source {
+                        an.unspecified.insert("repeated-key-inside-merge-source");
+                    }
+                    if c.in_key {
+                        an.unspecified.insert("repeated-key-inside-a-key");
+                    }
+                    an.key_kinds.insert(kind_name(k));
+                    an.discarded_values.insert(value_class(rv, v));
+                    if an.first.is_none() {
+                        an.first = Some(FirstRepeat {
+                            expect: k.pos(),
+                            via_alias: matches!(rk, Some(RNode::Alias { .. })),
+                            def: dk.pos(),
+                            first_occurrence: k0.pos(),
+                            in_replay: replay_below,
+                            depth: c.depth,
+                            key_kind: kind_name(k),
+                            discarded_value: value_class(rv, v),
+                        });
+                    }
+                } else if let RNode::Scalar { value, tag, .. } = k {
+                    // keys that differ only in a custom tag (the statement: different tag = different key)
+                    if is_custom_tag(tag)
+                        && entries[..i].iter().any(|(k2, _)| matches!(k2, RNode::Scalar { value: v2, tag: t2, .. } if v2 == value && is_custom_tag(t2) && t2 != tag))
+                    {
+                        an.custom_tag_lookalike = true;
+                    }
+                }
+                let ck = Ctx { in_replay: replay_below, in_source: c.in_source, in_key: true, depth: c.depth + 1 };
+                analyse(rk, k, dk, &ck, an);
+                let cv = Ctx { in_replay: replay_below, in_source: c.in_source, in_key: c.in_key, depth: c.depth + 1 };
+                analyse(rv, v, dv, &cv, an);
+            }
+        }
+        (RNode::Seq { items, tag, .. }, RNode::Seq { items: ditems, .. }) => {
+            if c.in_key && tag.is_some() {
+                an.unspecified.insert("tagged-container-key");
+            }
+            let ritems = match raw {
+                Some(RNode::Seq { items: ri, .. }) if ri.len() == items.len() => Some(ri),
+                _ => None,
+            };
+            for (i, it) in items.iter().enumerate() {
+                let c2 = Ctx { in_replay: replay_below, in_source: c.in_source, in_key: c.in_key, depth: c.depth + 1 };
+                analyse(ritems.map(|r| &r[i]), it, &ditems[i], &c2, an);
+            }
+        }
+        _ => {}
+    }
+}
+
+fn analyse_doc(raw: &RNode, usex: &RNode, defx: &RNode) -> Analysis {
+    let mut an = Analysis::default();
+    if let RNode::Map { entries, .. } = usex {
+        an.root_is_map = true;
+        an.root_keys_plain_scalars = entries.iter().all(|(k, _)| matches!(k, RNode::Scalar { tag: None, .. }));
+    }
+    analyse(Some(raw), usex, defx, &Ctx { in_replay: false, in_source: false, in_key: false, depth: 0 }, &mut an);
+    an
+}
+
+/// The document with every later (keep_first) / every earlier (!keep_first) entry of a
+/// repeated key deleted, in every mapping. Merge entries are never touched.
+fn dedup(n: &RNode, keep_first: bool) -> RNode {
+    match n {
+        RNode::Map { entries, tag, pos, .. } => {
+            let mut out = Vec::new();
+            for (i, (k, v)) in entries.iter().enumerate() {
+                if !is_merge_key(k) {
+                    let other: &[(RNode, RNode)] = if keep_first { &entries[..i] } else { &entries[i + 1..] };
+                    if other.iter().any(|(k2, _)| !is_merge_key(k2) && key_eq(k2, k)) {
+                        continue;
+                    }
+                }
+                out.push((dedup(k, keep_first), dedup(v, keep_first)));
+            }
+            RNode::Map { entries: out, tag: tag.clone(), anchor: 0, pos: *pos }
+        }
+        RNode::Seq { items, tag, pos, .. } => {
+            RNode::Seq { items: items.iter().map(|i| dedup(i, keep_first)).collect(), tag: tag.clone(), anchor: 0, pos: *pos }
+        }
+        other => other.clone(),
+    }
+}
+
+/// `dedup(.., false)` applied to the root mapping only (what a `BTreeMap<_, Val>` overwrites).
+fn dedup_last_root(n: &RNode) -> RNode {
+    match n {
+        RNode::Map { entries, tag, pos, .. } => {
+            let mut out = Vec::new();
+            for (i, (k, v)) in entries.iter().enumerate() {
+                if !is_merge_key(k) && entries[i + 1..].iter().any(|(k2, _)| !is_merge_key(k2) && key_eq(k2, k)) {
+                    continue;
+                }
+                out.push((k.clone(), v.clone()));
+            }
+            RNode::Map { entries: out, tag: tag.clone(), anchor: 0, pos: *pos }
+        }
+        other => other.clone(),
+    }
+}
+
+fn map_has_repeat(entries: &[(RNode, RNode)]) -> bool {
+    entries.iter().enumerate().any(|(i, (k, _))| !is_merge_key(k) && entries[..i].iter().any(|(k2, _)| !is_merge_key(k2) && key_eq(k2, k)))
+}
+
+/// Every merge-free mapping with a repeated key is rewritten as a sequence of one-pair
+/// mappings (same entries, same order); `split` receives the paths of those sequences.
+/// Mappings with merge entries are left alone, together with everything below them.
+fn split_maps(n: &RNode, path: &mut Vec<usize>, split: &mut HashSet<Vec<usize>>) -> RNode {
+    match n {
+        RNode::Map { entries, tag, pos, .. } => {
+            if entries.iter().any(|(k, _)| is_merge_key(k)) {
+                return n.clone();
+            }
+            if map_has_repeat(entries) {
+                split.insert(path.clone());
+                let mut items = Vec::new();
+                for (i, (k, v)) in entries.iter().enumerate() {
+                    path.push(i);
+                    path.push(0);
+                    let k2 = split_maps(k, path, split);
+                    path.pop();
+                    path.push(1);
+                    let v2 = split_maps(v, path, split);
+                    path.pop();
+                    path.pop();
+                    items.push(RNode::Map { entries: vec![(k2, v2)], tag: None, anchor: 0, pos: *pos });
+                }
+                RNode::Seq { items, tag: None, anchor: 0, pos: *pos }
+            } else {
+                let mut out = Vec::new();
+                for (i, (k, v)) in entries.iter().enumerate() {
+                    path.push(2 * i);
+                    let k2 = split_maps(k, path, split);
+                    path.pop();
+                    path.push(2 * i + 1);
+                    let v2 = split_maps(v, path, split);
+                    path.pop();
+                    out.push((k2, v2));
+                }
+                RNode::Map { entries: out, tag: tag.clone(), anchor: 0, pos: *pos }
+            }
+        }
+        RNode::Seq { items, tag, pos, .. } => {
+            let mut out = Vec::new();
+            for (i, it) in items.iter().enumerate() {
+                path.push(i);
+                out.push(split_maps(it, path, split));
+                path.pop();
+            }
+            RNode::Seq { items: out, tag: tag.clone(), anchor: 0, pos: *pos }
+        }
+        other => other.clone(),
+    }
+}
+
+/// Inverse of `split_maps` on the value side. `None` when a split position does not hold a
+/// sequence of one-pair maps.
+fn unsplit(v: &Val, path: &mut Vec<usize>, split: &HashSet<Vec<usize>>) -> Option<Val> {
+    if split.contains(path) {
+        let Val::Seq(items) = v else { return None };
+        let mut pairs = Vec::new();
+        for (i, it) in items.iter().enumerate() {
+            let Val::Map(m) = it else { return None };
+            if m.len() != 1 {
+                return None;
+            }
+            path.push(i);
+            path.push(0);
+            let k = unsplit(&m[0].0, path, split);
+            path.pop();
+            path.push(1);
+            let x = unsplit(&m[0].1, path, split);
+            path.pop();
+            path.pop();
+            pairs.push((k?, x?));
+        }
+        return Some(Val::Map(pairs));
+    }
+    match v {
+        Val::Seq(items) => {
+            let mut out = Vec::new();
+            for (i, it) in items.iter().enumerate() {
+                path.push(i);
+                let r = unsplit(it, path, split);
+                path.pop();
+                out.push(r?);
+            }
+            Some(Val::Seq(out))
+        }
+        Val::Map(m) => {
+            let mut out = Vec::new();
+            for (i, (k, x)) in m.iter().enumerate() {
+                path.push(2 * i);
+                let k2 = unsplit(k, path, split);
+                path.pop();
+                path.push(2 * i + 1);
+                let x2 = unsplit(x, path, split);
+                path.pop();
+                out.push((k2?, x2?));
+            }
+            Some(Val::Map(out))
+        }
+        other => Some(other.clone()),
+    }
+}
+
+fn render_ref(run: &Run, t: &RNode, flow: bool, what: &str) -> Option<(String, RNode)> {
+    let ro = RenderOpts::new();
+    let r = render_checked(&t.to_node(flow), &ro).or_else(|| render_checked(&t.to_node(!flow), &ro));
+    if r.is_none() {
+        run.inconclusive(&format!("generator-invalid: {what} not parsed as intended"));
+    }
+    r
+}
+
+fn cls(a: &Outcome, b: &Outcome) -> &'static str {
+    match (a, b) {
+        (Ok(_), Ok(_)) => "ok-vs-ok",
+        (Ok(_), Err(_)) => "ok-vs-err",
+        (Err(_), Ok(_)) => "err-vs-ok",
+        _ => "err-vs-err",
+    }
+}
+
+fn clip(s: &str) -> String {
+    if s.len() > 600 {
+        let mut e = 600;
+        while !s.is_char_boundary(e) {
+            e -= 1;
+        }
+        format!("{}… ({} bytes)", &s[..e], s.len())
+    } else {
+        s.to_string()
+    }
+}
+
+/// `run.violation` with a cap per signature: a defect of the library that hits a whole class of
+/// generated documents would otherwise be reported tens of thousands of times. Every occurrence
+/// is still counted (`occurrences/<signature>`).
+fn report(run: &Run, sig: &str, case: serde_json::Value, detail: impl Into<String>) {
+    use std::sync::Mutex;
+    static SEEN: Mutex<Option<std::collections::HashMap<String, u64>>> = Mutex::new(None);
+    let n = {
+        let mut g = SEEN.lock().unwrap();
+        let m = g.get_or_insert_with(Default::default);
+        let e = m.entry(sig.to_string()).or_insert(0);
+        *e += 1;
+        *e
+    };
+    if n <= 40 {
+        run.violation(sig, case, detail);
+    } else if n % 1000 == 0 {
+        run.count(&format!("occurrences_beyond_first_40/{sig}"), 1000);
+    }
+}
+
+// ------------------------------------------------------------------ the check of one document
+
+fn check_doc(run: &Run, doc: &str, flow: bool, class: &str) {
+    let Some(raw) = reftree::parse_one(doc) else {
+        run.inconclusive("generator-invalid: document rejected by the raw parser");
+        return;
+    };
+    let (Some(usex), Some(defx)) = (expand_use(&raw), raw.expand()) else {
+        run.inconclusive("generator-invalid: unresolved alias");
+        return;
+    };
+    let an = analyse_doc(&raw, &usex, &defx);
+    if !an.unspecified.is_empty() {
+        for u in &an.unspecified {
+            run.count(&format!("unspecified/{u}"), 1);
+        }
+        return;
+    }
+    // the replay file must stay small: big documents are stored as text anyway (needed to re-run)
+    let case = |extra: serde_json::Value| json!({"doc": doc, "flow": flow, "class": class, "what": extra});
+    let h = |tag: &str| fnv_parts(&[doc.as_bytes(), tag.as_bytes()]);
+
+    if an.repeats == 0 {
+        // identical under the three policies
+        for tn in TARGETS {
+            run.evals(3);
+            let rs: Vec<_> = (0..3).map(|p| run_target(tn, doc, p)).collect();
+            let mut outs = Vec::new();
+            let mut panicked = false;
+            for r in rs {
+                match r {
+                    Err(pn) => {
+                        report(run, &format!("C04:panic:{}", vcore::obs::panic_site(&pn)), case(json!({"target": tn})), pn);
+                        panicked = true;
+                    }
+                    Ok(o) => outs.push(o),
+                }
+            }
+            if panicked {
+                continue;
+            }
+            let same = same_value_or_both_err(&outs[0], &outs[1]) && same_value_or_both_err(&outs[0], &outs[2]);
+            if !same {
+                let feat = if an.custom_tag_lookalike { "keys-differing-only-in-custom-tag" } else { "general" };
+                report(run, 
+                    &format!("C04:no-repeat:policies-differ:{feat}"),
+                    case(json!({"target": tn})),
+                    format!("[{tn}] Error: {} | FirstWins: {} | LastWins: {}", clip(&show(&outs[0])), clip(&show(&outs[1])), clip(&show(&outs[2]))),
+                );
+            } else {
+                acc::count("no_repeat_held", 1);
+            }
+        }
+        return;
+    }
+
+    let first = an.first.clone().unwrap();
+    let nontrivial = an.entry_after_repeat;
+    for k in &an.key_kinds {
+        acc::observe(run, "repeated_key_kinds", k);
+    }
+    for k in &an.discarded_values {
+        acc::observe(run, "discarded_value_classes", k);
+    }
+    if first.via_alias {
+        acc::count("docs_first_repeat_written_as_alias", 1);
+    }
+
+    // ---- Error policy
+    if first.in_replay {
+        acc::count("unspecified/first-repeat-inside-replayed-anchor", 1);
+    } else {
+        let expect = (first.expect.line as u64, first.expect.col as u64 + 1);
+        for tn in TARGETS {
+            let eligible = match tn {
+                "Val" => true,
+                "MapValVal" => an.root_is_map,
+                "MapStrVal" => an.root_is_map && an.root_keys_plain_scalars,
+                "Rec" => an.root_is_map && an.root_keys_plain_scalars && first.depth == 0,
+                "json" => an.root_is_map && !an.complex_key,
+                _ => false,
+            };
+            if !eligible {
+                continue;
+            }
+            run.eval();
+            let cj = || case(json!({"policy": "Error", "target": tn}));
+            match run_target(tn, doc, 0) {
+                Err(pn) => report(run, &format!("C04:panic:{}", vcore::obs::panic_site(&pn)), cj(), pn),
+                Ok(Ok(v)) => report(run, 
+                    &format!("C04:error-policy:repeated-key-accepted:{}", first.key_kind),
+                    cj(),
+                    format!("[{tn}] repeated {} key at line {} col {} gave Ok({})", first.key_kind, expect.0, expect.1, clip(&v)),
+                ),
+                Ok(Err(e)) => {
+                    let kind = vcore::errs::kind(&e);
+                    acc::observe(run, "error_policy_kinds", &kind);
+                    if kind != "DuplicateMappingKey" {
+                        report(run, 
+                            &format!("C04:error-policy:wrong-error:{kind}"),
+                            cj(),
+                            format!("[{tn}] expected DuplicateMappingKey at {expect:?}, got {kind}: {}", clip(&e.to_string())),
+                        );
+                        continue;
+                    }
+                    let got = vcore::errs::line_col(&e);
+                    if got == Some(expect) {
+                        acc::count("error_policy_located_held", 1);
+                        if nontrivial {
+                            run.nontrivial(h(&format!("E/{tn}")));
+                        }
+                    } else {
+                        let def = (first.def.line as u64, first.def.col as u64 + 1);
+                        let fo = (first.first_occurrence.line as u64, first.first_occurrence.col as u64 + 1);
+                        let sig = if first.via_alias && got == Some(def) {
+                            "C04:error-location:alias-key-reported-at-anchor-definition".to_string()
+                        } else if got == Some(fo) {
+                            format!("C04:error-location:reported-at-first-occurrence:{}", first.key_kind)
+                        } else if got.is_none() {
+                            "C04:error-location:missing".to_string()
+                        } else {
+                            format!("C04:error-location:elsewhere:{}", first.key_kind)
+                        };
+                        report(run, 
+                            &sig,
+                            cj(),
+                            format!(
+                                "[{tn}] DuplicateMappingKey reported at {got:?}; the repeated key (second occurrence) starts at {expect:?}; first occurrence at {fo:?}; key written as alias: {}",
+                                first.via_alias
+                            ),
+                        );
+                    }
+                }
+            }
+        }
+    }
+
+    // ---- FirstWins: equals the document with every later entry deleted
+    let d_first = dedup(&usex, true);
+    if let Some((fdoc, fraw)) = render_ref(run, &d_first, flow, "first-wins reference") {
+        if analyse_doc(&fraw, &fraw, &fraw).repeats != 0 || fraw.has_alias() {
+            run.inconclusive("model error: first-wins reference still has repeats");
+        } else {
+            for tn in TARGETS {
+                run.evals(2);
+                let cj = || case(json!({"policy": "FirstWins", "target": tn, "reference": clip(&fdoc)}));
+                let (a, b) = match (run_target(tn, doc, 1), run_target(tn, &fdoc, 0)) {
+                    (Err(pn), _) | (_, Err(pn)) => {
+                        report(run, &format!("C04:panic:{}", vcore::obs::panic_site(&pn)), cj(), pn);
+                        continue;
+                    }
+                    (Ok(a), Ok(b)) => (a, b),
+                };
+                if !same_value_or_both_err(&a, &b) {
+                    report(run, 
+                        &format!("C04:first-wins:{}:discarded-{}", cls(&a, &b), first.discarded_value),
+                        cj(),
+                        format!("[{tn}] FirstWins: {} | later entries deleted: {}", clip(&show(&a)), clip(&show(&b))),
+                    );
+                } else {
+                    acc::count(if a.is_ok() { "first_wins_both_ok" } else { "first_wins_both_err" }, 1);
+                    if nontrivial {
+                        run.nontrivial(h(&format!("F/{tn}")));
+                    }
+                }
+            }
+        }
+    }
+
+    // ---- LastWins into overwriting maps: equals the document with every earlier entry deleted
+    // (a) overwriting at every level (OVal): every mapping of the reference is de-duplicated
+    let d_last = dedup(&usex, false);
+    if let Some((ldoc, lraw)) = render_ref(run, &d_last, flow, "last-wins reference") {
+        if analyse_doc(&lraw, &lraw, &lraw).repeats != 0 {
+            run.inconclusive("model error: last-wins reference still has repeats");
+        } else {
+            run.evals(2);
+            let cj = || case(json!({"policy": "LastWins", "target": "OVal", "reference": clip(&ldoc)}));
+            match (run_oval(doc, 2), run_oval(&ldoc, 0)) {
+                (Err(pn), _) | (_, Err(pn)) => report(run, &format!("C04:panic:{}", vcore::obs::panic_site(&pn)), cj(), pn),
+                (Ok(a), Ok(b)) => {
+                    if !same_value_or_both_err(&a, &b) {
+                        report(
+                            run,
+                            &format!("C04:last-wins-overwrite:{}:{}", cls(&a, &b), first.key_kind),
+                            cj(),
+                            format!("[OVal] LastWins: {} | earlier entries deleted: {}", clip(&show(&a)), clip(&show(&b))),
+                        );
+                    } else {
+                        acc::count(if a.is_ok() { "last_wins_overwrite_both_ok" } else { "last_wins_overwrite_both_err" }, 1);
+                        if nontrivial {
+                            run.nontrivial(h("L/OVal"));
+                        }
+                    }
+                }
+            }
+        }
+    }
+    // (b) BTreeMap<_, Val>: only the root mapping overwrites, the values below are ordered pair lists
+    if an.root_is_map && matches!(&usex, RNode::Map { entries, .. } if map_has_repeat(entries)) {
+        let d_last_root = dedup_last_root(&usex);
+        if let Some((ldoc, _)) = render_ref(run, &d_last_root, flow, "last-wins root reference") {
+            for tn in ["MapValVal", "MapStrVal"] {
+                run.evals(2);
+                let cj = || case(json!({"policy": "LastWins", "target": tn, "reference": clip(&ldoc)}));
+                let (a, b) = match (run_target(tn, doc, 2), run_target(tn, &ldoc, 2)) {
+                    (Err(pn), _) | (_, Err(pn)) => {
+                        report(run, &format!("C04:panic:{}", vcore::obs::panic_site(&pn)), cj(), pn);
+                        continue;
+                    }
+                    (Ok(a), Ok(b)) => (a, b),
+                };
+                if !same_value_or_both_err(&a, &b) {
+                    report(
+                        run,
+                        &format!("C04:last-wins-overwrite:{}:{}", cls(&a, &b), first.key_kind),
+                        cj(),
+                        format!("[{tn}] LastWins: {} | earlier root entries deleted: {}", clip(&show(&a)), clip(&show(&b))),
+                    );
+                } else {
+                    acc::count(if a.is_ok() { "last_wins_overwrite_both_ok" } else { "last_wins_overwrite_both_err" }, 1);
+                    if nontrivial {
+                        run.nontrivial(h(&format!("L/{tn}")));
+                    }
+                }
+            }
+        }
+    }
+    // struct targets under LastWins see a repeated field: what derive(Deserialize) makes of it is not the library's
+    acc::count("unspecified/last-wins-into-struct", 1);
+
+    // ---- LastWins into the ordered pair list: every entry, in order
+    let mut split = HashSet::new();
+    let s_tree = split_maps(&usex, &mut Vec::new(), &mut split);
+    if split.is_empty() {
+        acc::count("last_wins_delivery_skipped_repeats_only_next_to_merges", 1);
+    } else if let Some((sdoc, _)) = render_ref(run, &s_tree, flow, "one-pair-mappings reference") {
+        run.evals(2);
+        let cj = || case(json!({"policy": "LastWins", "target": "Val", "reference": clip(&sdoc)}));
+        match (run_val(doc, 2), run_val(&sdoc, 2)) {
+            (Err(pn), _) | (_, Err(pn)) => report(run, &format!("C04:panic:{}", vcore::obs::panic_site(&pn)), cj(), pn),
+            (Ok(Ok(a)), Ok(Ok(b))) => match unsplit(&b, &mut Vec::new(), &split) {
+                None => run.inconclusive("model error: one-pair-mappings reference did not deserialize into one-pair maps"),
+                Some(b2) => {
+                    if a != b2 {
+                        let ca = a.node_count();
+                        let cb = b2.node_count();
+                        let what = if ca < cb { "entries-missing" } else if ca > cb { "entries-extra" } else { "value-or-order" };
+                        report(run, 
+                            &format!("C04:last-wins-delivery:{what}:{}", first.key_kind),
+                            cj(),
+                            format!("LastWins into ordered pairs: {} | entries one by one: {}", clip(&a.to_string()), clip(&b2.to_string())),
+                        );
+                    } else {
+                        acc::count("last_wins_delivery_held", 1);
+                        if nontrivial {
+                            run.nontrivial(h("L/Val"));
+                        }
+                    }
+                }
+            },
+            (Ok(a), Ok(b)) => {
+                if a.is_ok() != b.is_ok() {
+                    report(run, 
+                        &format!("C04:last-wins-delivery:{}:{}", if a.is_ok() { "ok-vs-err" } else { "err-vs-ok" }, first.key_kind),
+                        cj(),
+                        format!(
+                            "LastWins into ordered pairs: {:?} | entries one by one: {:?}",
+                            a.as_ref().map(|_| "Ok").map_err(|e| vcore::errs::kind(e)),
+                            b.as_ref().map(|_| "Ok").map_err(|e| vcore::errs::kind(e))
+                        ),
+                    );
+                } else {
+                    acc::count("last_wins_delivery_both_err", 1);
+                }
+            }
+        }
+    }
+}
+
+// ------------------------------------------------------------------ generator
+
+#[derive(Clone, Copy, Debug, PartialEq, Eq)]
+enum KKind {
+    Scalar,
+    Seq,
+    Map,
+}
+
+/// How a later occurrence of a key is written.
+#[derive(Clone, Copy, Debug, PartialEq, Eq)]
+enum Variant {
+    Same,
+    Restyle,
+    Alias,
+}
+
+#[derive(Clone, Debug, PartialEq)]
+enum VShape {
+    Tok,
+    ESeq,
+    EMap,
+    Nest,
+    AliasMed,
+    DupMerge,
+    Deep(usize, bool),
+    BigSeq(usize),
+    BigMap(usize),
+    AliasBig,
+    BigDupMerge(usize),
+    Tree(Node),
+}
+
+const SMALL_SHAPES: [VShape; 6] = [VShape::Tok, VShape::ESeq, VShape::EMap, VShape::Nest, VShape::AliasMed, VShape::DupMerge];
+
+struct Spec {
+    /// key id per entry
+    ids: Vec<usize>,
+    kinds: Vec<KKind>,
+    /// variant per entry (ignored for first occurrences)
+    variants: Vec<Variant>,
+    values: Vec<VShape>,
+    /// 0 root, 1 item of a sequence followed by a tail, 2 value of a mapping followed by a tail
+    wrap: usize,
+    /// size of the large anchor when AliasBig is used
+    big: usize,
+}
+
+struct B {
+    c: usize,
+}
+
+impl B {
+    fn tok(&mut self) -> Node {
+        let n = Node::plain(&format!("t{}", self.c));
+        self.c += 1;
+        n
+    }
+    fn key(&self, id: usize, kind: KKind, later: Option<Variant>, anchor: Option<String>) -> Node {
+        let name = format!("k{}", id + 1);
+        if later == Some(Variant::Alias) {
+            return Node::alias(&format!("a{id}"));
+        }
+        let restyle = later == Some(Variant::Restyle);
+        let n = match kind {
+            KKind::Scalar => {
+                if restyle {
+                    if id % 2 == 0 { Node::dq(&name) } else { Node::sq(&name) }
+                } else {
+                    Node::plain(&name)
+                }
+            }
+            KKind::Seq => {
+                let a = if restyle { Node::dq(&name) } else { Node::plain(&name) };
+                Node::fseq(vec![a, Node::plain("s")])
+            }
+            KKind::Map => {
+                let (a, b) = if restyle { (Node::dq(&name), Node::sq("m")) } else { (Node::plain(&name), Node::plain("m")) };
+                Node::fmap(vec![(a, b)])
+            }
+        };
+        match anchor {
+            Some(a) => n.with_anchor(&a),
+            None => n,
+        }
+    }
+    fn deep(&mut self, n: usize) -> Node {
+        let mut cur = self.tok();
+        for i in 0..n {
+            cur = if i % 2 == 0 { Node::seq(vec![cur]) } else { Node::map(vec![(Node::plain("d"), cur)]) };
+        }
+        cur
+    }
+    fn dup_merge(&mut self, extra: usize) -> Node {
+        // own duplicates and merges of its own; the merge sources are clean
+        let mut e = vec![
+            (Node::plain("k1"), self.tok()),
+            (Node::plain("<<"), Node::fmap(vec![(Node::plain("k2"), self.tok()), (Node::plain("k9"), self.tok())])),
+            (Node::plain("k1"), Node::fseq(vec![self.tok()])),
+            (Node::plain("k2"), self.tok()),
+        ];
+        for i in 0..extra {
+            let name = format!("e{}", i % (extra / 2).max(1));
+            e.push((Node::plain(&name), self.tok()));
+        }
+        if extra > 0 {
+            e.push((Node::plain("<<"), Node::seq(vec![Node::map(vec![(Node::plain("k7"), self.tok())]), Node::map(vec![(Node::plain("k7"), self.tok()), (Node::plain("e0"), self.tok())])])));
+            e.push((Node::plain("k1"), self.tok()));
+        }
+        Node::map(e)
+    }
+    fn value(&mut self, s: &VShape) -> Node {
+        match s {
+            VShape::Tok => self.tok(),
+            VShape::ESeq => Node::seq(vec![]),
+            VShape::EMap => Node::map(vec![]),
+            VShape::Nest => Node::seq(vec![Node::seq(vec![self.tok()]), Node::map(vec![(Node::plain("x"), self.tok())])]),
+            VShape::AliasMed => Node::alias("med"),
+            VShape::DupMerge => self.dup_merge(0),
+            VShape::Deep(n, _) => self.deep(*n),
+            VShape::BigSeq(n) => Node::seq((0..*n).map(|_| self.tok()).collect()),
+            VShape::BigMap(n) => Node::map((0..*n).map(|i| (Node::plain(&format!("f{i}")), self.tok())).collect()),
+            VShape::AliasBig => Node::alias("big"),
+            VShape::BigDupMerge(n) => self.dup_merge(*n),
+            VShape::Tree(t) => t.clone(),
+        }
+    }
+}
+
+fn build(spec: &Spec) -> Node {
+    let mut b = B { c: 0 };
+    let n = spec.ids.len();
+    // which ids are referred to by alias later?
+    let mut aliased: BTreeSet<usize> = BTreeSet::new();
+    let mut seen: BTreeSet<usize> = BTreeSet::new();
+    for i in 0..n {
+        if seen.contains(&spec.ids[i]) {
+            if spec.variants[i] == Variant::Alias {
+                aliased.insert(spec.ids[i]);
+            }
+        } else {
+            seen.insert(spec.ids[i]);
+        }
+    }
+    let mut prelude: Vec<(Node, Node)> = Vec::new();
+    if spec.values.iter().any(|v| *v == VShape::AliasMed) {
+        let med = Node::fseq((0..50).map(|i| Node::plain(&format!("m{i}"))).collect()).with_anchor("med");
+        prelude.push((Node::plain("pre"), med));
+    }
+    if spec.values.iter().any(|v| *v == VShape::AliasBig) {
+        let big = Node::seq((0..spec.big).map(|i| Node::plain(&format!("g{i}"))).collect()).with_anchor("big");
+        prelude.push((Node::plain("prebig"), big));
+    }
+    let mut entries: Vec<(Node, Node)> = Vec::new();
+    let mut seen: BTreeSet<usize> = BTreeSet::new();
+    for i in 0..n {
+        let id = spec.ids[i];
+        let first = seen.insert(id);
+        let k = if first {
+            b.key(id, spec.kinds[id], None, if aliased.contains(&id) { Some(format!("a{id}")) } else { None })
+        } else {
+            b.key(id, spec.kinds[id], Some(spec.variants[i]), None)
+        };
+        let v = b.value(&spec.values[i]);
+        entries.push((k, v));
+    }
+    match spec.wrap {
+        0 => {
+            let mut e = prelude;
+            e.extend(entries);
+            Node::map(e)
+        }
+        1 => {
+            let mut items = Vec::new();
+            for (_, v) in prelude {
+                items.push(v);
+            }
+            items.push(Node::map(entries));
+            items.push(b.tok());
+            Node::seq(items)
+        }
+        _ => {
+            let mut e = prelude;
+            e.push((Node::plain("o1"), Node::map(entries)));
+            e.push((Node::plain("o2"), b.tok()));
+            Node::map(e)
+        }
+    }
+}
+
+/// Restricted growth strings of length n with at most `max_ids` distinct ids.
+fn rgs(n: usize, max_ids: usize) -> Vec<Vec<usize>> {
+    fn go(n: usize, max_ids: usize, cur: &mut Vec<usize>, used: usize, out: &mut Vec<Vec<usize>>) {
+        if cur.len() == n {
+            out.push(cur.clone());
+            return;
+        }
+        for id in 0..=used.min(max_ids - 1) {
+            cur.push(id);
+            go(n, max_ids, cur, used.max(id + 1), out);
+            cur.pop();
+        }
+    }
+    let mut out = Vec::new();
+    go(n, max_ids, &mut Vec::new(), 0, &mut out);
+    out
+}
+
+fn product(sizes: &[usize]) -> Vec<Vec<usize>> {
+    let mut out = vec![vec![]];
+    for &s in sizes {
+        let mut next = Vec::with_capacity(out.len() * s);
+        for pre in &out {
+            for i in 0..s {
+                let mut v = pre.clone();
+                v.push(i);
+                next.push(v);
+            }
+        }
+        out = next;
+    }
+    out
+}
+
+/// All small specs for entry-id sequence `ids`. `vary_all`: every entry's value ranges over
+/// the six small shapes; otherwise only entries whose key occurs more than once do.
+fn small_specs(ids: &[usize], vary: u8, wraps: &[usize]) -> Vec<Spec> {
+    let n = ids.len();
+    let n_ids = ids.iter().max().map(|m| m + 1).unwrap_or(0);
+    let count = |id: usize| ids.iter().filter(|x| **x == id).count();
+    let repeated: Vec<usize> = (0..n_ids).filter(|id| count(*id) >= 2).collect();
+    let mut later: Vec<usize> = Vec::new(); // entry positions that are later occurrences
+    let mut seen = BTreeSet::new();
+    for (i, id) in ids.iter().enumerate() {
+        if !seen.insert(*id) {
+            later.push(i);
+        }
+    }
+    let varied: Vec<usize> = match vary {
+        2 => (0..n).collect(),
+        1 => (0..n).filter(|i| repeated.contains(&ids[*i])).collect(),
+        _ => later.clone(),
+    };
+    let kinds_all = [KKind::Scalar, KKind::Seq, KKind::Map];
+    let vars_all = [Variant::Same, Variant::Restyle, Variant::Alias];
+    let mut out = Vec::new();
+    let kind_choices = if repeated.is_empty() { product(&vec![3; n_ids.min(2)]) } else { product(&vec![3; repeated.len()]) };
+    for kc in &kind_choices {
+        let mut kinds = vec![KKind::Scalar; n_ids];
+        if repeated.is_empty() {
+            for (j, c) in kc.iter().enumerate() {
+                kinds[j] = kinds_all[*c];
+            }
+        } else {
+            for (j, id) in repeated.iter().enumerate() {
+                kinds[*id] = kinds_all[kc[j]];
+            }
+        }
+        for vc in product(&vec![3; later.len()]) {
+            let mut variants = vec![Variant::Same; n];
+            for (j, p) in later.iter().enumerate() {
+                variants[*p] = vars_all[vc[j]];
+            }
+            for sc in product(&vec![SMALL_SHAPES.len(); varied.len()]) {
+                let mut values = vec![VShape::Tok; n];
+                for (j, p) in varied.iter().enumerate() {
+                    values[*p] = SMALL_SHAPES[sc[j]].clone();
+                }
+                for &wrap in wraps {
+                    out.push(Spec { ids: ids.to_vec(), kinds: kinds.clone(), variants: variants.clone(), values: values.clone(), wrap, big: 0 });
+                }
+            }
+        }
+    }
+    out
+}
+
+fn check_spec(run: &Run, spec: &Spec, class: &str, layouts: &[bool], sample: bool) {
+    let n = build(spec);
+    let ro = RenderOpts::new();
+    for &flow in layouts {
+        let mut t = n.clone();
+        if flow {
+            t.set_flow(true);
+        }
+        let Some((doc, _)) = render_checked(&t, &ro) else {
+            run.inconclusive("generator-invalid: document not parsed as intended");
+            continue;
+        };
+        acc::count(if flow { "docs_flow" } else { "docs_block" }, 1);
+        run.max("max_doc_bytes", doc.len() as u64);
+        if sample {
+            run.sample(|| json!({"class": class, "doc": clip(&doc)}));
+        }
+        check_doc(run, &doc, flow, class);
+    }
+    acc::flush(run);
+}
+
+fn random_spec(rng: &mut Rng, depth: usize) -> Spec {
+    let n = rng.range(2, 8);
+    let n_ids = rng.range(1, 4);
+    let ids: Vec<usize> = {
+        // canonicalise to first-appearance order
+        let raw: Vec<usize> = (0..n).map(|_| rng.below(n_ids)).collect();
+        let mut map: Vec<Option<usize>> = vec![None; n_ids];
+        let mut next = 0;
+        raw.iter()
+            .map(|r| {
+                if map[*r].is_none() {
+                    map[*r] = Some(next);
+                    next += 1;
+                }
+                map[*r].unwrap()
+            })
+            .collect()
+    };
+    let kinds: Vec<KKind> = (0..n_ids).map(|_| *rng.pick(&[KKind::Scalar, KKind::Scalar, KKind::Seq, KKind::Map])).collect();
+    let variants: Vec<Variant> = (0..n).map(|_| *rng.pick(&[Variant::Same, Variant::Same, Variant::Restyle, Variant::Alias])).collect();
+    let mut values = Vec::new();
+    for _ in 0..n {
+        let v = match rng.below(20) {
+            0..=6 => VShape::Tok,
+            7 => VShape::ESeq,
+            8 => VShape::EMap,
+            9 => VShape::Nest,
+            10 => VShape::AliasMed,
+            11 => VShape::DupMerge,
+            12 => VShape::Deep(rng.range(2, 40), false),
+            13 => VShape::BigSeq(rng.range(2, 300)),
+            14 => VShape::BigMap(rng.range(2, 100)),
+            15 | 16 if depth > 0 => {
+                // a value that is itself a mapping with repeated keys
+                let mut inner = random_spec(rng, depth - 1);
+                inner.wrap = 0;
+                for v in inner.values.iter_mut() {
+                    if matches!(v, VShape::AliasMed | VShape::AliasBig) {
+                        *v = VShape::Tok;
+                    }
+                }
+                // inner anchors would clash with the outer ones: no alias-written keys inside
+                for v in inner.variants.iter_mut() {
+                    if *v == Variant::Alias {
+                        *v = Variant::Restyle;
+                    }
+                }
+                let mut t = build(&inner);
+                retoken(&mut t, &format!("n{}_", rng.below(1_000_000)));
+                VShape::Tree(t)
+            }
+            _ => {
+                let mut c = 0;
+                let mut t = vcore::treegen::random_tree(rng, 12, 4, vcore::treegen::LEAVES_BASIC, &mut c);
+                retoken(&mut t, &format!("r{}_", rng.below(1_000_000)));
+                VShape::Tree(t)
+            }
+        };
+        values.push(v);
+    }
+    Spec { ids, kinds, variants, values, wrap: rng.below(3), big: 0 }
+}
+
+/// Make the tokens of an embedded sub-tree unique with respect to the rest of the document.
+fn retoken(n: &mut Node, prefix: &str) {
+    match n {
+        Node::Scalar { text, .. } => {
+            if text.starts_with('t') || text.starts_with('x') {
+                *text = format!("{prefix}{text}");
+            }
+        }
+        Node::Seq { items, .. } => items.iter_mut().for_each(|i| retoken(i, prefix)),
+        Node::Map { entries, .. } => entries.iter_mut().for_each(|(_, v)| retoken(v, prefix)),
+        Node::Alias(_) => {}
+    }
+}
+
+// ------------------------------------------------------------------ main
+
+fn main() {
+    let run = Run::from_args("C04");
+    if let Some(rep) = run.is_replay() {
+        let case = &rep["case"];
+        check_doc(&run, case["doc"].as_str().unwrap_or(""), case["flow"].as_bool().unwrap_or(false), "replay");
+        acc::flush(&run);
+        run.finish(Finish::new("replay"));
+    }
+    let tier = run.tier;
+    let both = [false, true];
+
+    // ---- 1. exhaustive small shapes
+    let mut specs: Vec<Spec> = Vec::new();
+    let full_n = 3;
+    for n in 2..=full_n {
+        for ids in rgs(n, 3) {
+            specs.extend(small_specs(&ids, 2, &[0, 1, 2]));
+        }
+    }
+    // length 4: quick varies the value only at the discarded (later) entries and keeps the mapping at the
+    // root; thorough varies the value of every entry whose key takes part in a repeat, in all three positions
+    for ids in rgs(full_n + 1, 3) {
+        specs.extend(small_specs(&ids, tier.pick(0, 1), tier.pick(&[0][..], &[0, 1, 2][..])));
+    }
+    if let Ok(l) = std::env::var("C04_LIMIT") {
+        let l: usize = l.parse().unwrap();
+        let step = (specs.len() / l).max(1);
+        let mut i = 0;
+        specs.retain(|_| {
+            i += 1;
+            i % step == 0
+        });
+    }
+    eprintln!("specs {} at {:.1}s", specs.len(), run.elapsed_s());
+    acc::count("exhaustive_specs", specs.len() as u64);
+    par_range(specs.len(), |i| {
+        check_spec(&run, &specs[i], "exhaustive", &both, i % 20011 == 0);
+    });
+    drop(specs);
+    eprintln!("phase exhaustive done at {:.1}s", run.elapsed_s());
+
+    // ---- 2. look-alike keys that are *different* keys: tag differs, element differs, value differs
+    {
+        let mk = |k1: Node, k2: Node, wrap: usize| -> Node {
+            let mut b = B { c: 0 };
+            let e = vec![(k1, b.tok()), (Node::plain("k2"), b.tok()), (k2, b.tok()), (Node::plain("k3"), b.tok())];
+            match wrap {
+                0 => Node::map(e),
+                1 => Node::seq(vec![Node::map(e), b.tok()]),
+                _ => Node::map(vec![(Node::plain("o1"), Node::map(e)), (Node::plain("o2"), b.tok())]),
+            }
+        };
+        let pairs: Vec<(Node, Node)> = vec![
+            (Node::plain("k1"), Node::plain("k1").with_tag("!!str")),
+            (Node::dq("k1"), Node::plain("k1").with_tag("!!str")),
+            (Node::plain("k1").with_tag("!!str"), Node::plain("k1")),
+            (Node::fseq(vec![Node::plain("k1"), Node::plain("s")]), Node::fseq(vec![Node::plain("k1"), Node::plain("t")])),
+            (Node::fseq(vec![Node::plain("k1"), Node::plain("s")]), Node::fseq(vec![Node::plain("k1")])),
+            (Node::fseq(vec![Node::plain("k1")]), Node::fseq(vec![Node::fseq(vec![Node::plain("k1")])])),
+            (Node::fmap(vec![(Node::plain("k1"), Node::plain("m"))]), Node::fmap(vec![(Node::plain("k1"), Node::plain("n"))])),
+            (Node::fmap(vec![(Node::plain("k1"), Node::plain("m"))]), Node::fseq(vec![Node::plain("k1"), Node::plain("m")])),
+            (Node::plain("k1"), Node::fseq(vec![Node::plain("k1")])),
+            (Node::plain("k1"), Node::plain("K1")),
+            (Node::plain("1"), Node::plain("01")),
+            (Node::plain("~"), Node::plain("null")),
+            // and two that ARE the same key (control)
+            (Node::plain("k1").with_tag("!!str"), Node::dq("k1").with_tag("!!str")),
+            (Node::fseq(vec![Node::dq("k1"), Node::plain("s")]), Node::fseq(vec![Node::plain("k1"), Node::sq("s")])),
+        ];
+        let ro = RenderOpts::new();
+        for (a, b) in &pairs {
+            for wrap in 0..3 {
+                for flow in both {
+                    let mut t = mk(a.clone(), b.clone(), wrap);
+                    if flow {
+                        t.set_flow(true);
+                    }
+                    match render_checked(&t, &ro) {
+                        Some((doc, _)) => {
+                            acc::count("lookalike_docs", 1);
+                            check_doc(&run, &doc, flow, "look-alike");
+                        }
+                        None => run.inconclusive("generator-invalid: look-alike document not parsed as intended"),
+                    }
+                }
+            }
+        }
+        // keys that differ only in a custom tag
+        for doc in ["!foo k1: t0\n!bar k1: t1\nk2: t2\n", "{!foo k1: t0, k2: t1, !bar k1: t2}\n", "- !u a: t0\n  !v a: t1\n- t2\n"] {
+            acc::count("custom_tag_docs", 1);
+            check_doc(&run, doc, doc.starts_with('{'), "custom-tag-look-alike");
+        }
+    }
+
+    eprintln!("phase look-alike done at {:.1}s", run.elapsed_s());
+    // ---- 3. large / deep values after (and at) the repeated key
+    let debug_limited = std::env::var("C04_LIMIT").is_ok();
+    if debug_limited {
+        run.note("C04_LIMIT set: debugging run, exhaustive part sampled, large/random parts skipped");
+    }
+    if !debug_limited {
+        let big_n = 10_000;
+        let shapes: Vec<VShape> = vec![
+            VShape::Deep(60, false),
+            VShape::Deep(120, true),
+            VShape::BigSeq(big_n),
+            VShape::AliasBig,
+            VShape::BigMap(3000),
+            VShape::BigDupMerge(400),
+        ];
+        let patterns: Vec<Vec<usize>> = vec![vec![0, 1, 0, 2], vec![0, 0, 1], vec![0, 1, 1, 0, 2]];
+        let mut bs: Vec<(Spec, bool)> = Vec::new();
+        for ids in &patterns {
+            let n_ids = ids.iter().max().unwrap() + 1;
+            let mut seen = BTreeSet::new();
+            let later: Vec<usize> = ids.iter().enumerate().filter(|(_, id)| !seen.insert(**id)).map(|(i, _)| i).collect();
+            let first_of_repeated: Vec<usize> = later.iter().map(|p| ids.iter().position(|x| *x == ids[*p]).unwrap()).collect();
+            for kind in [KKind::Scalar, KKind::Seq, KKind::Map] {
+                for var in [Variant::Same, Variant::Restyle, Variant::Alias] {
+                    for sh in &shapes {
+                        for place in 0..2 {
+                            // place 0: at every discarded (later) entry; place 1: at the first occurrence
+                            let positions = if place == 0 { &later } else { &first_of_repeated };
+                            if place == 1 && tier == Tier::Quick && !matches!(sh, VShape::BigSeq(_) | VShape::Deep(60, _)) {
+                                continue;
+                            }
+                            for wrap in 0..3 {
+                                let mut values = vec![VShape::Tok; ids.len()];
+                                for p in positions {
+                                    values[*p] = sh.clone();
+                                }
+                                let flow_only = matches!(sh, VShape::Deep(_, true));
+                                let spec = Spec {
+                                    ids: ids.clone(),
+                                    kinds: vec![kind; n_ids],
+                                    variants: vec![var; ids.len()],
+                                    values,
+                                    wrap,
+                                    big: big_n,
+                                };
+                                bs.push((spec, flow_only));
+                            }
+                        }
+                    }
+                }
+            }
+        }
+        if tier == Tier::Thorough {
+            // more sizes at one pattern
+            for n in [1, 2, 3, 100, 1000, 50_000] {
+                for sh in [VShape::BigSeq(n), VShape::BigMap(n.min(20_000)), VShape::AliasBig, VShape::Deep(n.min(150), false)] {
+                    for var in [Variant::Same, Variant::Alias] {
+                        for kind in [KKind::Scalar, KKind::Map] {
+                            bs.push((
+                                Spec {
+                                    ids: vec![0, 1, 0, 2],
+                                    kinds: vec![kind; 3],
+                                    variants: vec![var; 4],
+                                    values: vec![VShape::Tok, VShape::Tok, sh.clone(), VShape::Tok],
+                                    wrap: 2,
+                                    big: n,
+                                },
+                                false,
+                            ));
+                        }
+                    }
+                }
+            }
+        }
+        acc::count("large_value_specs", bs.len() as u64);
+        par_range_chunk(bs.len(), 1, |i| {
+            let (spec, flow_only) = &bs[i];
+            // a flow rendering of a 120-deep nest stays below the scanner's flow-depth limit; block nests deeper than that go block only
+            let deep_block = spec.values.iter().any(|v| matches!(v, VShape::Deep(n, false) if *n > 100));
+            let layouts: &[bool] = if *flow_only { &[true] } else if deep_block { &[false] } else { &both };
+            check_spec(&run, spec, "large-value", layouts, i % 97 == 0);
+        });
+    }
+
+    eprintln!("phase large done at {:.1}s", run.elapsed_s());
+    // ---- 4. seeded random mappings
+    let n_random = if debug_limited { 2000 } else { tier.pick(40_000, 1_000_000) };
+    par_range(n_random, |i| {
+        let mut rng = Rng::stream(run.seed, i as u64);
+        let spec = random_spec(&mut rng, 2);
+        let flow = rng.chance(1, 3);
+        acc::count("random_docs", 1);
+        check_spec(&run, &spec, "random", &[flow], i % 9973 == 0);
+    });
+
+    eprintln!("phase random done at {:.1}s", run.elapsed_s());
+    let scope = format!(
+        "mappings whose entry keys follow every restricted-growth string of length 2..=3 over <= 3 key ids; every repeated id's key kind in {{scalar, sequence, mapping}}; every later occurrence written {{identically, in another style, as an alias to the first}}; every entry's value in {{token, [], {{}}, small nest, alias to a 50-element anchor, mapping with own duplicates and merges}}; test mapping at {{root, sequence item followed by a tail, mapping value followed by a tail}}; {{block, flow}}. Length 4 in the same way but {}",
+        if tier == Tier::Quick { "with the value varied only at the discarded (later) entries and the mapping at the root" } else { "with the value varied at every entry whose key takes part in a repeat" }
+    );
+    let fin = Finish::new(
+        "a case (document, policy, target) is non-trivial when the raw parser's tree has a mapping with >= 1 repeated key node and >= 1 entry after it, and the policy's expectation was evaluated for that target; distinct by hash(doc, policy/target)",
+    )
+    .exhaustive(scope)
+    .assume("raw saphyr-parser event stream is the ground truth for what a document means; repeats, expected error position and all reference documents are computed from it")
+    .assume("reference documents are alias-free (aliases expanded by anchor id), so the verdict also relies on alias transparency (C02)")
+    .assume("budget and alias limits switched off")
+    .assume("no verdict (counted as unspecified/*): LastWins into a derived struct, repeated keys inside a merge source or inside a key, tagged container keys")
+    .min_nontrivial(if tier == Tier::Quick { 50_000 } else { 500_000 });
+    acc::flush(&run);
+    run.finish(fin);
+}
